@@ -108,7 +108,9 @@ def oracle(program, aux):
         failures.append(('C14/later-edit-fails/%s/%s' % (rowtag, pr.sig), 'later-edits', 'after the refused call(s) %s: step %d: %s (the same history without the refused call runs cleanly)' % (rows, pr.step, pr.msg[:300])))
     if not a.dead and not a.problems:
         ia, ib = a.write(), b.write()
-        if ia is None:
+        if ia is None and ib is None:
+            a.stats['c01_domain'] += 1          # the history cannot be mastered with or without the refused call: not an atomicity matter
+        elif ia is None:
             pr = a.problems[-1]
             failures.append(('C14/final-write-fails/%s/%s' % (rowtag, pr.sig.split('/')[-1]), 'write-after-refusal', 'final write_fp raised after refused call(s) %s: %s' % (rows, pr.msg[:300])))
         elif ib is not None:
